@@ -9,12 +9,12 @@ def verdictStr : Spec01.Verdict → String
   | .fail c => s!"fail clause={c}"
 
 /-- one neighbour's verdict: the reference checker, then (not part of it) a report on histories of
-    the class the master theorem covers (with or without add-path; no LLGR period, no soft reset
+    the class the master theorem covers (with or without add-path; no RTC, no LLGR period, no soft reset
     overtaking queued changes) on which its computed hypothesis `okRun` nevertheless fails -/
 def judge (c : Case01) (ob : Obs01) (who : String) : String :=
   match Spec01.check c ob with
   | .ok =>
-      if Conv.noLlgr (c.pre ++ c.ops) && ob.overtaken = 0 && !Conv.okRun c
+      if c.rtc.isNone && Conv.noLlgr (c.pre ++ c.ops) && ob.overtaken = 0 && !Conv.okRun c
       then s!"fail clause=theorem-hypothesis-not-met-by-model-run class=in-order{who}"
       else "ok"
   | .fail x => s!"fail clause={x}{who}"
